@@ -120,7 +120,7 @@ def replay(binp, scripts, sd, name, timeout=900):
 
 
 KEEP = {
-    "cfg": ("ev", "id", "cfg"), "tick": ("ev", "n"), "req": ("ev", "id", "client"),
+    "cfg": ("ev", "id", "cfg"), "tick": ("ev", "n"), "req": ("ev", "id", "client", "plan"),
     "dispatch": ("ev", "id", "b"), "reply": ("ev", "id", "status", "kind", "h"),
     "mark": ("ev", "b"), "probe": ("ev", "b", "r"),
     "admin": ("ev", "op", "name", "w", "s", "status", "pre", "items"),
@@ -145,7 +145,8 @@ def project(trace_path, out_path):
             if e["ev"] == "cfg":
                 c = e["cfg"]
                 e["cfg"] = {"strategy": c["strategy"], "backends": c["backends"],
-                            "passive": c["passive"], "active": c["active"]}
+                            "passive": c["passive"], "active": c["active"],
+                            "guards": bool((c.get("cb") or {}).get("on") or (c.get("rl") or {}).get("on"))}
             if e["ev"] == "drift":
                 drift += 1
             fo.write(json.dumps(e, separators=(",", ":")) + "\n")
@@ -201,6 +202,32 @@ def judge(chk, trace_path, scripts, props, sd, name, extra_sig=None, clauses=Non
     return cnt
 
 
+def conformance(chk, sd, name, c):
+    """code -> M: the recorded replay of plan `name` validated against Pool.tla itself (spec/TracePool.tla, with the
+    plan's constants): selections, listings and every state change must be the model's.  Divergence is reported as
+    MODEL-DRIFT and counted, never a verdict."""
+    proj = os.path.join(sd, name + ".proj.ndjson")
+    text = cfg_text(c, gen=False).split("INIT MCInit")[0]
+    text += "INIT TraceInit\nNEXT TraceNext\nINVARIANT Report\nPOSTCONDITION Consumed\nCHECK_DEADLOCK FALSE\n"
+    wd = vlib.scratch("tlc")
+    with open(os.path.join(wd, "trace.cfg"), "w") as fh:
+        fh.write(text)
+    r = vlib.tlc("TracePool", "trace.cfg", workdir=wd, workers=1, timeout=1800, env={"TRACE_FILE": proj}, deadlock=False)
+    if r.rc != 0:
+        raise vlib.FrameworkError("TracePool did not consume the trace of %s (rc=%d):\n%s" % (name, r.rc, r.out[-2500:]))
+    chk.add_tlc("M-conformance:TracePool over " + name, r)
+    div = r.printed("MDIV")
+    m = chk.cov.setdefault("m_conformance", {"trace_lines": 0, "diverged_segments": 0, "first": []})
+    m["trace_lines"] += r.distinct - 1
+    m["diverged_segments"] += len(div)
+    if len(m["first"]) < 3:
+        m["first"] += div[:3 - len(m["first"])]
+    if div:
+        vlib.log("MODEL-DRIFT (not a verdict): %d replayed segments of plan %s take a step Pool.tla cannot explain, first: %s"
+                 % (len(div), name, json.dumps(div[0])[:600]))
+    return div
+
+
 def run_check(pid, tier, props, plan_list, rule=None, snap=False, extra=None, clauses=None, alias=(), guards=()):
     chk = vlib.Check(pid, tier)
     sd = vlib.scratch(pid.lower())
@@ -226,6 +253,7 @@ def run_check(pid, tier, props, plan_list, rule=None, snap=False, extra=None, cl
         _t0 = _t.time()
         judge(chk, tp, scripts, set(props), sd, name, clauses=clauses)
         vlib.log("    replay+judge %.1fs" % (_t.time() - _t0))
+        conformance(chk, sd, name, c)
         if name in alias:
             # the same walks with every added backend given the address of b1: names, not addresses, identify backends
             import copy
